@@ -145,7 +145,7 @@ def check(run):
         "filepath.Glob / filepath.Walk, compress/gzip, Go regexp and encoding/csv are trusted; glob syntax limited to * ? and literals",
         "domain: clean relative paths; '-' only as the sole argument; without -z no compressed files are mentioned; -z with stdin excluded; no CR bytes",
         "a truncated gzip file may deliver any prefix of its content (one read error); all other kinds deliver exactly",
-        "reported errors are the stderr lines '[Log] Error opening file <p>' / '[Log] Error reading <p>'; final message '[Log] Read errors' / '[Log] Parse errors'",
+        "every failing input is reported by a [Log] line on stderr: lines in today's wording ('Error opening file <p>' / 'Error reading <p>') never outnumber the failures, and together with [Log] lines of unknown wording they are at least as many (so re-wording a report is accepted, dropping or duplicating one is not); the exact count is Batcher.ReadErrors(); final message '[Log] Read errors' / '[Log] Parse errors' (pinned by the repository's own tests)",
         "running as root: permission errors are not producible; faults used: missing path, path below a regular file, directory as file, directory as stdin, corrupt / checksum-damaged / truncated gzip",
         "inputs that cannot be rewound and report size 0 (FIFO in the tree, /dev/stdin, /dev/fd/3 = process substitution; fed from a pipe, the last two also from a regular file) are in the domain when mentioned at most once and not reached by a -R walk (the property speaks of regular files there); they must deliver exactly what the regular file with the same bytes delivers",
         "descriptors: at most --readers mentioned inputs (non-directories) are open for reading at the same time, counted from /proc/<pid>/fd while FIFO inputs hold the reader slots (a count stands only if three consecutive samples reach it); under a descriptor limit of at least readers + 16 no readable input may fail (the unchanged binary needs readers + 5)",
